@@ -28,6 +28,7 @@ from ..tables import TablesError
 PID = "C17"
 ORACLE_PROCS = 4      # exact-arithmetic oracle (pure python); small on purpose: the machine is shared
 PROOF_FILES = ["theories/Props/C17.v", "theories/Checker/TetMesh.v", "theories/Proofs/TetMeshPoly.v",
+               "theories/Proofs/TetMeshCaps.v", "theories/Proofs/TetMeshBodyProofs.v",
                "theories/Proofs/TetMeshBase.v", "theories/Proofs/TetMeshSym.v", "theories/Proofs/TetMeshBox.v",
                "theories/Proofs/TetMeshCyl.v", "theories/Proofs/TetMeshIcoKey.v", "theories/Proofs/TetMeshIcoPure.v",
                "theories/Proofs/TetMeshIco.v", "theories/Proofs/TetMeshHelpers.v"]
@@ -99,8 +100,27 @@ def gen_cases(rng, tier):
     thorough = tier == "thorough"
     cases = []
 
-    def add(factory, cls, **args):
-        cases.append(dict(factory=factory, cls=cls, args=args, pose=rand_pose(rng)))
+    def add(factory, cls, history=None, **args):
+        c = dict(factory=factory, cls=cls, args=args, pose=rand_pose(rng))
+        if history is not None:
+            c["history"] = history
+        cases.append(c)
+
+    def rand_history():
+        """reads of the lazily cached RigidBody properties interleaved with express_in (new frame, or the same frame again)"""
+        reads = ["com", "aabbs", "tp", "tpot", "aabb"]
+        kind = rng.randrange(4)
+        p1, p2 = rand_pose(rng), rand_pose(rng)
+        if kind == 0:
+            return [["com"], ["express_in", p1], ["com"], ["aabbs"], ["aabb"]]
+        if kind == 1:
+            return [["aabbs"], ["aabb"], ["tp"], ["express_in", p1], ["aabb"], ["aabbs"], ["tp"], ["com"]]
+        if kind == 2:
+            return [["tp"], ["com"], ["express_in", p1], ["express_in", p1], ["com"], ["express_in", p2], ["aabb"], ["com"], ["tpot"]]
+        h = []
+        for _ in range(rng.randint(6, 10)):
+            h.append(["express_in", rng.choice([p1, p2])] if rng.random() < 0.3 else [rng.choice(reads)])
+        return h + [["com"], ["aabbs"], ["aabb"]]
 
     # --- sphere / ellipsoid: orders 0..3 (4 in thorough), radii across the domain
     orders = [0, 1, 2, 3] + ([4] if thorough else [])
@@ -200,6 +220,19 @@ def gen_cases(rng, tier):
             add("capsule", f"n{n}", radius=r, height=h, resolution_hint=hint)
     add("capsule", "n8", radius=1e2, height=1e-2, resolution_hint=2 * math.pi * 1e2 / 8.5)
     add("capsule", "n8", radius=1e-2, height=1e2, resolution_hint=2 * math.pi * 1e-2 / 8.5)
+    # --- histories on one RigidBody object (lazily cached com / aabbs / tetrahedra_points / tree vs express_in)
+    for _ in range(4 if thorough else 2):
+        add("box", "history", history=rand_history(), size=[logu(rng, 0.1, 10), logu(rng, 0.1, 10), logu(rng, 0.1, 10)])
+        add("cube", "history", history=rand_history(), size=logu(rng, 0.1, 10))
+        r = logu(rng, 0.1, 5)
+        add("cylinder", "history", history=rand_history(), radius=r, length=logu(rng, 0.1, 10),
+            resolution_hint=hint_for(rng.choice([3, 5, 8]), r, rng))
+        r = logu(rng, 0.1, 5)
+        add("capsule", "history", history=rand_history(), radius=r, height=logu(rng, 0.1, 10),
+            resolution_hint=2 * math.pi * r / (rng.choice([3, 4, 6]) + 0.5))
+        add("sphere", "history", history=rand_history(), radius=logu(rng, 0.1, 10), order=rng.choice([0, 1]))
+        add("ellipsoid", "history", history=rand_history(), radii=[logu(rng, 0.1, 10), logu(rng, 0.1, 10), logu(rng, 0.1, 10)],
+            order=rng.choice([0, 1]))
     for c in cases:
         c["root_aabb"] = True
     return cases
@@ -455,7 +488,11 @@ def run(tier, seed, replay=None):
             m_idx.append(i)
         if "volumes" in r and 0 < r["shapes"][1][0] <= hlimit:
             h_exprs.append(helpers_expr(r))
-            h_idx.append(i)
+            h_idx.append((i, None))
+        for k, rec in enumerate(r.get("history") or []):
+            if rec["op"] in ("com", "aabbs") and "value" in rec and r["shapes"][1][0] <= hlimit:
+                h_exprs.append(helpers_expr(dict(vertices=rec["vertices"], tetrahedra=r["tetrahedra"])))
+                h_idx.append((i, k))
         if "cert" in v:
             c_exprs.append(cert_expr(v["cert"], r))
             c_idx.append(i)
@@ -468,7 +505,7 @@ def run(tier, seed, replay=None):
     validated = 0
     try:
         outs = cm.coq_eval_lines(PID, HEADER_MODEL, m_exprs + [f"run_ico {o}%nat" for o in ico_orders if o in ico_need],
-                                 tag="model", per_file=8)
+                                 tag="model", per_file=max(8, len(m_exprs) // 16 + 1))
         for i, o in zip(m_idx, outs[:len(m_idx)]):
             d = compare_model(cases[i], results[i], parse_coq_value(o))
             if d:
@@ -497,8 +534,18 @@ def run(tier, seed, replay=None):
     helpers_validated = 0
     try:
         outs = cm.coq_eval_lines(PID, HEADER_MODEL, h_exprs, tag="helpers", per_file=max(1, len(h_exprs) // 16 + 1))
-        for i, o in zip(h_idx, outs):
-            d = compare_helpers(cases[i], results[i], parse_coq_value(o))
+        for (i, k), o in zip(h_idx, outs):
+            if k is None:
+                d = compare_helpers(cases[i], results[i], parse_coq_value(o))
+            else:       # a read in a RigidBody history: the model of the cache machine says "direct computation on the current vertices"
+                rec = results[i]["history"][k]
+                vols_, aabbs_, com_ = parse_coq_value(o)
+                if rec["op"] == "aabbs":
+                    d = [] if same_floats(flatten(aabbs_), rec["value"]) else [f"history step {k}: aabbs differ from the model on the current vertices"]
+                else:
+                    ext = max([abs(x) for x in rec["vertices"]] + [1e-300])
+                    okc = len(rec["value"]) == 3 and all(abs(float(x) - y) <= 1e-12 * ext for x, y in zip(com_, rec["value"]))
+                    d = [] if okc else [f"history step {k}: com {rec['value']} differs from the model on the current vertices {com_}"]
             if d:
                 diffs += 1
                 if len(R.corr_broken) < 6:
